@@ -22,6 +22,23 @@ type c15Conf struct {
 	MaxReaders  int
 	Forward     int // number of forward destinations (content derived from the count)
 	DeleteAfter int // hours
+	Hot         [9]int // index into the alternatives of every other documented hot-reloadable parameter
+}
+
+// the other parameters the path manager documents as hot-reloadable (pathConfCanBeUpdated), with alternatives
+var c15HotFields = []struct {
+	name string
+	alts []string
+}{
+	{"recordPartDuration", []string{"1s", "2s", "500ms"}},
+	{"recordMaxPartSize", []string{"50M", "10M", "1M"}},
+	{"recordSegmentDuration", []string{"1h", "30m", "10m"}},
+	{"recordFormat", []string{"fmp4", "mpegts"}},
+	{"recordPath", []string{"./recordings/%path/%Y-%m-%d_%H-%M-%S-%f", "./rec2/%path/%Y-%m-%d_%H-%M-%S-%f"}},
+	{"rpiCameraBrightness", []string{"0", "0.5"}},
+	{"rpiCameraContrast", []string{"1", "1.5"}},
+	{"rpiCameraTextOverlay", []string{"a", "b"}},
+	{"rpiCameraBitrate", []string{"5000000", "1000000"}},
 }
 
 type c15Set map[string]c15Conf
@@ -31,6 +48,13 @@ func (s c15Set) yaml() string {
 	for _, name := range wbSortedKeys(s) {
 		c := s[name]
 		fmt.Fprintf(&b, "  %q:\n    source: publisher\n    maxReaders: %d\n    recordDeleteAfter: %dh\n", name, c.MaxReaders, c.DeleteAfter)
+		for hi, hf := range c15HotFields {
+			v := hf.alts[c.Hot[hi]%len(hf.alts)]
+			if hf.name == "recordPath" || hf.name == "rpiCameraTextOverlay" {
+				v = fmt.Sprintf("%q", v)
+			}
+			fmt.Fprintf(&b, "    %s: %s\n", hf.name, v)
+		}
 		if c.Forward > 0 {
 			b.WriteString("    forward:\n")
 			for i := 0; i < c.Forward; i++ {
@@ -86,10 +110,16 @@ func c15Mutate(rng *rand.Rand, s c15Set) (c15Set, string) {
 	case x < 4 && len(names) > 0: // hot-reloadable change
 		k := names[rng.IntN(len(names))]
 		c := n[k]
-		if rng.IntN(2) == 0 {
+		switch rng.IntN(4) {
+		case 0:
 			c.Forward = (c.Forward + 1 + rng.IntN(2)) % 4
-		} else {
+		case 1:
 			c.DeleteAfter = c.DeleteAfter%5 + 1
+		default: // one of the other documented hot-reloadable parameters
+			hi := rng.IntN(len(c15HotFields))
+			c.Hot[hi] = (c.Hot[hi] + 1) % len(c15HotFields[hi].alts)
+			n[k] = c
+			return n, "hot:" + k + ":" + c15HotFields[hi].name
 		}
 		n[k] = c
 		return n, "hot:" + k
@@ -362,8 +392,8 @@ func TestVerifC15(t *testing.T) {
 		pub.remove()
 		e.close()
 	}
-	r.Finish("real pathManager with live stub publishers/readers on static, regex (several with different capture groups) and catch-all configurations; sequences of 1..5 reloads (hot-reloadable change = forward list / recordDeleteAfter, non hot-reloadable = maxReaders, configuration removed, configuration added incl. copies that let a path move between configurations), one third back-to-back without waiting, hook delay at the entry of the per-path reload goroutine. At quiescence (manager+path barrier, then only a persisting mismatch counts): every static configuration has a live path; every live path's name resolves; its configuration Equal()s the resolved one; confName and capture groups are the resolved ones; a path with live clients keeps its identity and clients iff every step changed only hot-reloadable fields of its resolved configuration; the same state check is repeated after every client has left (paths of static configurations must remain); plus bursts of 2..5 hot reloads of one live path delivered back to back (the path must settle on the last one). non-trivial = sequence with >= 2 steps and live clients",
-		"the hot-reloadable field list is the documented one (forward, record*, rpiCamera live controls); the harness varies forward / recordDeleteAfter (hot) and maxReaders (not hot)")
+	r.Finish("real pathManager with live stub publishers/readers on static, regex (several with different capture groups) and catch-all configurations; sequences of 1..5 reloads (hot-reloadable change = forward list / recordDeleteAfter / recordPartDuration / recordMaxPartSize / recordSegmentDuration / recordFormat / recordPath / four rpiCamera live controls, non hot-reloadable = maxReaders, configuration removed, configuration added incl. copies that let a path move between configurations), one third back-to-back without waiting, hook delay at the entry of the per-path reload goroutine. At quiescence (manager+path barrier, then only a persisting mismatch counts): every static configuration has a live path; every live path's name resolves; its configuration Equal()s the resolved one; confName and capture groups are the resolved ones; a path with live clients keeps its identity and clients iff every step changed only hot-reloadable fields of its resolved configuration; the same state check is repeated after every client has left (paths of static configurations must remain); plus bursts of 2..5 hot reloads of one live path delivered back to back (the path must settle on the last one). non-trivial = sequence with >= 2 steps and live clients",
+		"the hot-reloadable field list is the documented one (forward, record*, rpiCamera live controls); the harness varies forward, recordDeleteAfter and nine more documented hot parameters, and maxReaders (not hot)")
 }
 
 // c15Check compares the live white-box state with the reference resolution of cur.
